@@ -142,7 +142,7 @@ def shard_container_scramble(desc, rec):
         try:
             v1, v2 = _tdf_view(p1), _tdf_view(p2)
         except Exception as ex:
-            rec.violation("C12", "container:dontcare-bytes-break-reading", f"{type(ex).__name__}: {ex}", case)
+            rec.violation("C12", "container:dontcare-bytes-break-reading", f"{type(ex).__name__}: {ex}", case, exc=ex)
             os.unlink(p1); os.unlink(p2)
             continue
         rec.count("oracle:C12.container-independent-of-dontcare")
